@@ -3134,6 +3134,857 @@ fn directed_known(rep: &mut Report) {
     }
 }
 
+
+// ------------------------------------------------------------------ complete expression grammar (Full.lean)
+
+const F_KWS: &[&str] = &["status", "TYPE", "Depth", "text", "INT", "nodes", "leader", "hops", "total", "pattern"];
+const F_AGG: &[&str] = &["COUNT", "SUM", "AVG", "MIN", "MAX"];
+
+fn f_lit_text(n: usize) -> String {
+    match n % 7 {
+        0 => format!("{n}"),
+        1 => format!("{n}.5"),
+        2 => format!("'s{n}'"),
+        3 => format!("\"q{n}\""),
+        4 => "TRUE".into(),
+        5 => "false".into(),
+        _ => format!("{n}e2"),
+    }
+}
+
+/// generated tree of `Full.E`
+#[derive(Clone, Debug)]
+enum FT {
+    Lit(usize),
+    Null,
+    Ident(usize),
+    Kw(usize),
+    Wild,
+    Unit,
+    Tuple(Vec<FT>),
+    Un(usize, Box<FT>),
+    Bin(Box<FT>, usize, Box<FT>),
+    IsNull(bool, Box<FT>),
+    In(bool, Box<FT>, Vec<FT>),
+    Between(bool, Box<FT>, Box<FT>, Box<FT>),
+    Like(bool, Box<FT>, Box<FT>),
+    Qual(usize, Box<FT>),
+    QualWild(bool, usize),
+    Call(bool, usize, bool, Vec<FT>),
+    Array(Vec<FT>),
+    Case(Option<Box<FT>>, Vec<(FT, FT)>, Option<Box<FT>>),
+}
+
+fn b01(b: bool) -> &'static str {
+    if b { "1" } else { "0" }
+}
+
+impl FT {
+    fn polish(&self, out: &mut Vec<String>) {
+        match self {
+            FT::Lit(n) => out.push(format!("l{n}")),
+            FT::Null => out.push("null".into()),
+            FT::Ident(n) => out.push(format!("i{n}")),
+            FT::Kw(n) => out.push(format!("k{n}")),
+            FT::Wild => out.push("wild".into()),
+            FT::Unit => out.push("unit".into()),
+            FT::Tuple(v) => {
+                out.push("tuple".into());
+                out.push(v.len().to_string());
+                v.iter().for_each(|x| x.polish(out));
+            }
+            FT::Un(u, x) => {
+                out.push("un".into());
+                out.push(UN[*u].into());
+                x.polish(out);
+            }
+            FT::Bin(l, o, r) => {
+                out.push("bin".into());
+                out.push(BIN[*o].0.into());
+                l.polish(out);
+                r.polish(out);
+            }
+            FT::IsNull(neg, x) => {
+                out.push("isnull".into());
+                out.push(b01(*neg).into());
+                x.polish(out);
+            }
+            FT::In(neg, x, v) => {
+                out.push("in".into());
+                out.push(b01(*neg).into());
+                out.push(v.len().to_string());
+                x.polish(out);
+                v.iter().for_each(|y| y.polish(out));
+            }
+            FT::Between(neg, x, lo, hi) => {
+                out.push("between".into());
+                out.push(b01(*neg).into());
+                x.polish(out);
+                lo.polish(out);
+                hi.polish(out);
+            }
+            FT::Like(neg, x, p) => {
+                out.push("like".into());
+                out.push(b01(*neg).into());
+                x.polish(out);
+                p.polish(out);
+            }
+            FT::Qual(n, x) => {
+                out.push("qual".into());
+                out.push(n.to_string());
+                x.polish(out);
+            }
+            FT::QualWild(kw, n) => {
+                out.push("qualwild".into());
+                out.push(b01(*kw).into());
+                out.push(n.to_string());
+            }
+            FT::Call(agg, n, d, v) => {
+                out.push("call".into());
+                out.push(format!("{}{n}", if *agg { 'g' } else { 'i' }));
+                out.push(b01(*d).into());
+                out.push(v.len().to_string());
+                v.iter().for_each(|y| y.polish(out));
+            }
+            FT::Array(v) => {
+                out.push("array".into());
+                out.push(v.len().to_string());
+                v.iter().for_each(|y| y.polish(out));
+            }
+            FT::Case(op, ws, el) => {
+                out.push("case".into());
+                out.push(b01(op.is_some()).into());
+                out.push(ws.len().to_string());
+                out.push(b01(el.is_some()).into());
+                if let Some(o) = op {
+                    o.polish(out);
+                }
+                for (c, r) in ws {
+                    c.polish(out);
+                    r.polish(out);
+                }
+                if let Some(e) = el {
+                    e.polish(out);
+                }
+            }
+        }
+    }
+    /// expected answer in the driver's `showFE` syntax, written independently of the model
+    fn sexp(&self) -> String {
+        fn items(v: &[FT]) -> String {
+            v.iter().map(|x| format!(" {}", x.sexp())).collect()
+        }
+        match self {
+            FT::Lit(n) => format!("l{n}"),
+            FT::Null => "null".into(),
+            FT::Ident(n) => format!("i{n}"),
+            FT::Kw(n) => format!("k{n}"),
+            FT::Wild => "*".into(),
+            FT::Unit => "()".into(),
+            FT::Tuple(v) => format!("(tuple{})", items(v)),
+            FT::Un(u, x) => format!("({} {})", UN[*u], x.sexp()),
+            FT::Bin(l, o, r) => format!("({} {} {})", BIN[*o].0, l.sexp(), r.sexp()),
+            FT::IsNull(neg, x) => format!("({} {})", if *neg { "isnotnull" } else { "isnull" }, x.sexp()),
+            FT::In(neg, x, v) => format!("({} {}{})", if *neg { "notin" } else { "in" }, x.sexp(), items(v)),
+            FT::Between(neg, x, lo, hi) => {
+                format!("({} {} {} {})", if *neg { "notbetween" } else { "between" }, x.sexp(), lo.sexp(), hi.sexp())
+            }
+            FT::Like(neg, x, p) => format!("({} {} {})", if *neg { "notlike" } else { "like" }, x.sexp(), p.sexp()),
+            FT::Qual(n, x) => format!("(qual {} @i{n})", x.sexp()),
+            FT::QualWild(kw, n) => format!("(qualwild @{}{n})", if *kw { 'k' } else { 'i' }),
+            FT::Call(agg, n, d, v) => {
+                format!("(call @{}{n}{}{})", if *agg { 'g' } else { 'i' }, if *d { " distinct" } else { "" }, items(v))
+            }
+            FT::Array(v) => format!("(array{})", items(v)),
+            FT::Case(op, ws, el) => format!(
+                "(case {}{} else={})",
+                op.as_ref().map_or("-".to_string(), |o| o.sexp()),
+                ws.iter().map(|(c, r)| format!(" (when {} {})", c.sexp(), r.sexp())).collect::<String>(),
+                el.as_ref().map_or("-".to_string(), |o| o.sexp())
+            ),
+        }
+    }
+    fn depth(&self) -> usize {
+        let m = |v: &[FT]| v.iter().map(|x| x.depth()).max().unwrap_or(0);
+        match self {
+            FT::Tuple(v) | FT::Array(v) | FT::Call(_, _, _, v) => 1 + m(v),
+            FT::Un(_, x) | FT::IsNull(_, x) | FT::Qual(_, x) => 1 + x.depth(),
+            FT::Bin(l, _, r) | FT::Like(_, l, r) => 1 + l.depth().max(r.depth()),
+            FT::In(_, x, v) => 1 + x.depth().max(m(v)),
+            FT::Between(_, x, lo, hi) => 1 + x.depth().max(lo.depth()).max(hi.depth()),
+            FT::Case(op, ws, el) => {
+                1 + op.as_ref().map_or(0, |o| o.depth())
+                    .max(ws.iter().map(|(c, r)| c.depth().max(r.depth())).max().unwrap_or(0))
+                    .max(el.as_ref().map_or(0, |o| o.depth()))
+            }
+            _ => 1,
+        }
+    }
+    fn tag(&self) -> &'static str {
+        match self {
+            FT::Lit(_) => "lit",
+            FT::Null => "null",
+            FT::Ident(_) => "ident",
+            FT::Kw(_) => "kw",
+            FT::Wild => "wildcard",
+            FT::Unit => "unit",
+            FT::Tuple(_) => "tuple",
+            FT::Un(..) => "un",
+            FT::Bin(..) => "bin",
+            FT::IsNull(..) => "isnull",
+            FT::In(..) => "in",
+            FT::Between(..) => "between",
+            FT::Like(..) => "like",
+            FT::Qual(..) => "qual",
+            FT::QualWild(..) => "qualwild",
+            FT::Call(..) => "call",
+            FT::Array(_) => "array",
+            FT::Case(..) => "case",
+        }
+    }
+    fn count(&self, rep: &mut Report) {
+        rep.hit(&format!("full.tree.{}", self.tag()));
+        let mut kids: Vec<&FT> = Vec::new();
+        match self {
+            FT::Tuple(v) | FT::Array(v) | FT::Call(_, _, _, v) => kids.extend(v.iter()),
+            FT::Un(_, x) | FT::IsNull(_, x) | FT::Qual(_, x) => kids.push(x),
+            FT::Bin(l, _, r) | FT::Like(_, l, r) => {
+                kids.push(l);
+                kids.push(r);
+            }
+            FT::In(_, x, v) => {
+                kids.push(x);
+                kids.extend(v.iter());
+            }
+            FT::Between(_, x, lo, hi) => {
+                kids.push(x);
+                kids.push(lo);
+                kids.push(hi);
+            }
+            FT::Case(op, ws, el) => {
+                if let Some(o) = op {
+                    kids.push(o);
+                }
+                for (c, r) in ws {
+                    kids.push(c);
+                    kids.push(r);
+                }
+                if let Some(e) = el {
+                    kids.push(e);
+                }
+            }
+            _ => {}
+        }
+        // the combinations the postfix rules are about: what stands directly under what
+        for k in &kids {
+            if matches!(self, FT::IsNull(..) | FT::In(..) | FT::Between(..) | FT::Like(..) | FT::Qual(..) | FT::Un(..)) {
+                rep.hit(&format!("full.under.{}.{}", self.tag(), k.tag()));
+            }
+            k.count(rep);
+        }
+    }
+}
+
+fn f_leaf(r: &mut Rng, na: &mut usize) -> FT {
+    *na += 1;
+    let n = *na - 1;
+    match r.below(16) {
+        0 => FT::Wild,
+        1 => FT::Unit,
+        2 => FT::Null,
+        3 | 4 => FT::Kw(n),
+        5 => FT::QualWild(r.chance(1, 3), n),
+        6..=9 => FT::Ident(n),
+        _ => FT::Lit(n),
+    }
+}
+
+fn f_list(r: &mut Rng, depth: usize, na: &mut usize, min: usize, max: usize) -> Vec<FT> {
+    let k = min + r.below((max - min + 1) as u64) as usize;
+    (0..k)
+        .map(|_| {
+            let d = 1 + r.below(depth.max(1) as u64) as usize;
+            f_gen(r, d, na)
+        })
+        .collect()
+}
+
+/// random tree of the complete expression grammar; postfix forms, prefix operators and binary
+/// operators are mixed freely so that every "X directly under Y" pair the printing rules
+/// distinguish occurs
+fn f_gen(r: &mut Rng, depth: usize, na: &mut usize) -> FT {
+    if depth <= 1 {
+        return f_leaf(r, na);
+    }
+    let d = depth - 1;
+    let sub = |r: &mut Rng, na: &mut usize| {
+        let dd = 1 + r.below(d as u64) as usize;
+        Box::new(f_gen(r, dd, na))
+    };
+    let deep = |r: &mut Rng, na: &mut usize| Box::new(f_gen(r, d, na));
+    match r.below(30) {
+        0..=7 => {
+            let o = r.below(19) as usize;
+            if r.chance(1, 2) {
+                FT::Bin(deep(r, na), o, sub(r, na))
+            } else {
+                FT::Bin(sub(r, na), o, deep(r, na))
+            }
+        }
+        8..=10 => FT::Un(r.below(3) as usize, deep(r, na)),
+        11 | 12 => FT::IsNull(r.chance(1, 2), deep(r, na)),
+        13 | 14 => FT::In(r.chance(1, 2), deep(r, na), f_list(r, d, na, 0, 3)),
+        15..=17 => {
+            let x = sub(r, na);
+            FT::Between(r.chance(1, 2), x, deep(r, na), sub(r, na))
+        }
+        18 | 19 => FT::Like(r.chance(1, 2), sub(r, na), deep(r, na)),
+        20 | 21 => {
+            *na += 1;
+            FT::Qual(*na - 1, deep(r, na))
+        }
+        22 | 23 => {
+            *na += 1;
+            FT::Call(r.chance(1, 3), *na - 1, r.chance(1, 4), f_list(r, d, na, 0, 3))
+        }
+        24 => FT::Array(f_list(r, d, na, 0, 3)),
+        25 => FT::Tuple(f_list(r, d, na, 2, 4)),
+        26 | 27 => {
+            let op = if r.chance(1, 2) { Some(deep(r, na)) } else { None };
+            let nw = 1 + r.below(2) as usize;
+            let ws = (0..nw).map(|_| (*sub(r, na), *sub(r, na))).collect();
+            let el = if r.chance(1, 2) { Some(sub(r, na)) } else { None };
+            FT::Case(op, ws, el)
+        }
+        _ => f_leaf(r, na),
+    }
+}
+
+/// Full-alphabet token words -> text with the token-start table
+fn f_render(words: &[String], r: &mut Rng, fancy: bool) -> Rendered {
+    let mut text = String::new();
+    let mut starts = Vec::new();
+    if fancy && r.chance(1, 8) {
+        text.push_str(sep(r, true));
+    }
+    let kwcase = |r: &mut Rng, k: &str| -> String {
+        match r.below(3) {
+            0 => k.to_uppercase(),
+            1 => k.to_lowercase(),
+            _ => {
+                let mut c = k.to_lowercase();
+                c[..1].make_ascii_uppercase();
+                c
+            }
+        }
+    };
+    for (i, w) in words.iter().enumerate() {
+        if i > 0 {
+            text.push_str(sep(r, fancy));
+        }
+        starts.push(text.len());
+        let t: String = match w.as_str() {
+            "(" | ")" | "[" | "]" | "," | "." => w.clone(),
+            "bang" => "!".into(),
+            "tilde" => "~".into(),
+            "other" => (*r.pick(&[";", "}", ":", "@", "?", "#", "{", "$"])).into(),
+            "null" | "not" | "is" | "in" | "between" | "like" | "case" | "when" | "then" | "else" | "end" | "distinct"
+            | "exists" | "select" | "cast" => kwcase(r, w),
+            _ => {
+                if let Some(b) = BIN.iter().find(|b| b.0 == w) {
+                    (*r.pick(b.1)).into()
+                } else {
+                    let n: usize = w[1..].parse().unwrap_or(0);
+                    match w.as_bytes()[0] {
+                        b'l' => f_lit_text(n),
+                        b'i' => format!("c{n}"),
+                        b'k' => F_KWS[n % F_KWS.len()].to_string(),
+                        _ => {
+                            let a = F_AGG[n % F_AGG.len()];
+                            if r.chance(1, 2) { a.to_string() } else { a.to_lowercase() }
+                        }
+                    }
+                }
+            }
+        };
+        text.push_str(&t);
+    }
+    if fancy && r.chance(1, 8) {
+        text.push_str(sep(r, true));
+    }
+    Rendered { text, starts }
+}
+
+/// replace the placeholders of a `full` answer (`l<n>` `i<n>` `k<n>` `@i<n>` `@k<n>` `@g<n>`) by what
+/// the real AST canonicaliser `sx` prints for them
+fn f_expand(ans: &str) -> String {
+    let b = ans.as_bytes();
+    let mut out = String::new();
+    let mut i = 0;
+    while i < b.len() {
+        let word_start = i == 0 || matches!(b[i - 1], b' ' | b'(' | b'=');
+        if word_start {
+            let at = b[i] == b'@';
+            let j0 = if at { i + 1 } else { i };
+            if j0 + 1 < b.len() && matches!(b[j0], b'l' | b'i' | b'k' | b'g') && b[j0 + 1].is_ascii_digit() {
+                let mut j = j0 + 1;
+                while j < b.len() && b[j].is_ascii_digit() {
+                    j += 1;
+                }
+                if j == b.len() || matches!(b[j], b' ' | b')') {
+                    let n: usize = ans[j0 + 1..j].parse().unwrap();
+                    let rep = match (b[j0], at) {
+                        (b'l', false) => np::parse_expr(&f_lit_text(n)).map(|e| sx(&e)).unwrap_or_else(|_| "?".into()),
+                        (b'i', false) => format!("id:c{n}"),
+                        (b'i', true) => format!("c{n}"),
+                        (b'k', false) => format!("id:{}", F_KWS[n % F_KWS.len()].to_lowercase()),
+                        (b'k', true) => F_KWS[n % F_KWS.len()].to_lowercase(),
+                        (b'g', true) => F_AGG[n % F_AGG.len()].to_string(),
+                        _ => "?".into(),
+                    };
+                    out.push_str(&rep);
+                    i = j;
+                    continue;
+                }
+            }
+        }
+        out.push(b[i] as char);
+        i += 1;
+    }
+    out
+}
+
+fn f_canon_err(e: &np::ParseError, rd: &Rendered) -> String {
+    let at = tok_index(rd, e.span.start.0 as usize);
+    match &e.kind {
+        ParseErrorKind::InvalidSyntax(msg) => {
+            let tag = if msg.contains("qualified wildcard") {
+                "qualwild"
+            } else if msg.contains("at least one WHEN") {
+                "case_no_when"
+            } else if msg.contains("EXISTS") {
+                "exists"
+            } else {
+                "other"
+            };
+            format!("err invalid {tag} {at}")
+        }
+        _ => canon_err(e, rd),
+    }
+}
+
+fn f_real_expr(rd: &Rendered) -> String {
+    let text = rd.text.clone();
+    match guarded(move || np::parse_expr(&text)) {
+        Ok(Ok(e)) => format!("ok {}", sx(&e)),
+        Ok(Err(e)) => f_canon_err(&e, rd),
+        Err(p) => format!("panic {p}"),
+    }
+}
+
+fn f_real_stmt(rd: &Rendered) -> String {
+    let text = format!("{STMT_PREFIX}{}", rd.text);
+    match guarded(move || np::parse(&text)) {
+        Ok(Ok(st)) => match st.kind {
+            StatementKind::Select(s) => match s.where_clause {
+                Some(w) => format!("ok {}", sx(&w)),
+                None => "ok <no-where>".into(),
+            },
+            _ => "ok <not-select>".into(),
+        },
+        Ok(Err(e)) => {
+            let shifted = Rendered { text: String::new(), starts: rd.starts.iter().map(|s| s + STMT_PREFIX.len()).collect() };
+            f_canon_err(&e, &shifted)
+        }
+        Err(p) => format!("panic {p}"),
+    }
+}
+
+fn f_tag(ans: &str) -> String {
+    if ans.starts_with("ok") {
+        return "ok".into();
+    }
+    ans.split(' ')
+        .take(3)
+        .filter(|w| !w.chars().all(|c| c.is_ascii_digit()))
+        .collect::<Vec<_>>()
+        .join("_")
+        .replace('(', "lparen")
+        .replace(')', "rparen")
+        .replace(']', "rbracket")
+}
+
+/// one token list through both real parsers against the two modes of the model
+fn f_tokens_case(m: &mut Model, rep: &mut Report, r: &mut Rng, words: &[String], stream: &str, key: bool) -> (String, String) {
+    let fancy = r.chance(1, 5);
+    let rd = f_render(words, r, fancy);
+    let line = words.join(" ");
+    let imp = f_real_expr(&rd);
+    let model = f_expand(&m.ask(&format!("full expr {line}")));
+    let s1 = format!("{stream}.expr");
+    rep.case(&s1, if key && words.len() >= 3 { Some(&rd.text) } else { None });
+    rep.compare(&s1, || json!({"text": rd.text, "tokens": line}), &imp, &model);
+    rep.hit(&format!("full.result.{}", f_tag(&imp)));
+    let simp = f_real_stmt(&rd);
+    let smodel = f_expand(&m.ask(&format!("full stmt {line}")));
+    if smodel == "outside" {
+        rep.hit("full.stmt.outside");
+    } else {
+        let s2 = format!("{stream}.stmt");
+        rep.case(&s2, None);
+        rep.compare(&s2, || json!({"text": format!("{STMT_PREFIX}{}", rd.text), "tokens": line}), &simp, &smodel);
+        rep.hit(&format!("full.stmt.result.{}", f_tag(&simp)));
+    }
+    if rep.samples.len() < 14 && words.len() > 6 && r.chance(1, 40) {
+        rep.sample(json!({"stream": stream, "text": rd.text, "real": imp, "model": model}));
+    }
+    (imp, simp)
+}
+
+const F_POSTFIX_CLASS: &str = "neumann_parser::parse_expr/postfix_precedence";
+const F_POSTFIX_CLASS_STMT: &str = "neumann_parser::parse/postfix_precedence";
+
+fn f_tree_case(m: &mut Model, rep: &mut Report, r: &mut Rng, t: &FT, stream: &str) {
+    let mut pol = Vec::new();
+    t.polish(&mut pol);
+    let pol = pol.join(" ");
+    let expected = f_expand(&format!("ok {}", t.sexp()));
+    t.count(rep);
+    rep.hit(&format!("full.tree.depth.{:02}", t.depth().min(12)));
+    let mut firsts: Vec<(String, String, String)> = Vec::new();
+    for mode in ["min", "full", "all"] {
+        if mode == "all" && !r.chance(1, 3) {
+            continue;
+        }
+        let words = words_of(&m.ask(&format!("fprint {mode} {pol}")));
+        if words.first().map_or(true, |w| w == "bad-op") {
+            rep.disagree(stream, json!({"tree": pol}), "harness tree", "bad-op");
+            return;
+        }
+        let frames: usize = m.ask(&format!("fframes {mode} {pol}")).parse().unwrap_or(0);
+        rep.hit(&format!("full.frames.{mode}.{:02}", frames.min(70)));
+        let (imp, simp) = f_tokens_case(m, rep, r, &words, &format!("{stream}.{mode}"), t.depth() >= 2);
+        // --- oracles on the implementation: the parse IS the generated tree
+        if frames <= 64 && imp != expected {
+            viol_once(rep, F_POSTFIX_CLASS,
+                &format!("{mode}-parenthesised print of a tree with postfix forms does not parse back to the tree: got {imp}, want {expected}"),
+                json!({"tokens": words.join(" "), "tree": pol}));
+        }
+        if frames <= 64 && simp != expected {
+            viol_once(rep, F_POSTFIX_CLASS_STMT,
+                &format!("statement parser: {mode}-parenthesised print of a tree with postfix forms does not parse back to the tree: got {simp}, want {expected}"),
+                json!({"tokens": words.join(" "), "tree": pol}));
+        }
+        firsts.push((mode.to_string(), imp, simp));
+    }
+    if let Some((_, a0, s0)) = firsts.first().cloned() {
+        for (mode, a, s) in &firsts[1..] {
+            if *a != a0 || *s != s0 {
+                viol_once(rep, "neumann_parser::parse_expr/paren_invariance",
+                    &format!("min-print and {mode}-print of a tree with postfix forms parse differently: {a0} vs {a} (statement parser: {s0} vs {s})"),
+                    json!({"tree": pol}));
+            }
+        }
+    }
+}
+
+/// the shortest inputs in which each postfix / primary rule is the only thing that decides the parse
+const F_DIRECTED: &[&str] = &[
+    // a BETWEEN bound / LIKE pattern stops before `*` (PREFIX_BP = 19 > 17), and before AND
+    "i1 between l1 and l2 mul l3",
+    "i1 like l2 mul l3",
+    "i1 not between sub l1 and tilde l2 mod l3 and i4",
+    "i1 between l1 and l2 and l3 between l4 and l5 or l6",
+    "i1 between i2 between l1 and l2 and l3",
+    "i1 between l1 and i2 between l3 and l4",
+    // a postfix form attaches to the nearest operand, under prefix operators too
+    "sub i1 is null",
+    "not i1 is not null",
+    "tilde i1 . i2 is null",
+    "l1 add l2 is null",
+    "l1 mul i2 not in ( l3 ) add l4",
+    "( l1 add l2 ) is null",
+    "i1 like i2 is null",
+    "( i1 like i2 ) is null",
+    "i1 between l1 and l2 is null",
+    "( i1 between l1 and l2 ) is null",
+    "i1 is null is not null",
+    // NOT: postfix only before IN / BETWEEN / LIKE
+    "i1 not in ( l1 , l2 ) not like l3",
+    "i1 not l2",
+    "i1 not not in ( l1 )",
+    "not not i1 not between l1 and l2",
+    "i1 is not l2",
+    "i1 is bang null",
+    // qualified names and wildcards
+    "i1 . i2 . i3",
+    "i1 . mul",
+    "k1 . mul",
+    "( i1 ) . mul",
+    "l1 . mul",
+    "i1 . i2 . mul",
+    "l1 add ( l2 ) . mul",
+    "i1 . k2",
+    "i1 .",
+    "i1 . l2",
+    // calls, aggregates, DISTINCT, arrays, tuples
+    "i1 ( )",
+    "i1 ( distinct )",
+    "i1 ( distinct l1 , l2 add l3 )",
+    "g0 ( mul )",
+    "g1 ( distinct i2 ) . i3",
+    "g0",
+    "g0 l1",
+    "k1 ( l1 )",
+    "i1 ( l1 , )",
+    "i1 ( l1 l2 )",
+    "[ ]",
+    "[ l1 , [ l2 , l3 ] , ( ) ]",
+    "[ l1 , ]",
+    "[ l1",
+    "( l1 , l2 )",
+    "( l1 , l2 , l3 ) is null",
+    "( l1 , )",
+    "( l1 , l2",
+    "i1 in ( )",
+    "i1 in ( l1 , l2 add l3 , ( l4 , l5 ) )",
+    "i1 in l1",
+    "i1 in ( l1",
+    "i1 in ( select",
+    // CASE
+    "case when i1 then l2 end",
+    "case i1 when l1 then l2 when l3 then l4 else l5 end is null",
+    "case when i1 then l2 else l3",
+    "case i1 end",
+    "case end",
+    "case",
+    "case when i1 l2",
+    "case when i1 then l2 else l3 when",
+    "case case when l1 then l2 end when l3 then l4 end",
+    // the two copies differ here
+    "exists ( l1 )",
+    "exists l1",
+    "exists",
+    "cast ( l1 )",
+    "i1 add exists ( select",
+];
+
+fn f_directed(m: &mut Model, rep: &mut Report, rng: &Rng) {
+    let mut r = rng.fork("full.directed");
+    for line in F_DIRECTED {
+        let words = words_of(line);
+        f_tokens_case(m, rep, &mut r, &words, "full.directed", true);
+    }
+    // the C15_2-shaped regression check with an explicit expectation (independent of the model)
+    for (line, want) in [
+        ("i1 between l1 and l2 mul l3", "(mul (between i1 l1 l2) l3)"),
+        ("i1 like l2 mul l3", "(mul (like i1 l2) l3)"),
+        ("sub i1 is null", "(neg (isnull i1))"),
+        ("l1 mul i2 not in ( l3 ) add l4", "(add (mul l1 (notin i2 l3)) l4)"),
+        ("i1 between l1 and l2 is null", "(between i1 l1 (isnull l2))"),
+        ("not i1 not like l2 or l3", "(or (not (notlike i1 l2)) l3)"),
+    ] {
+        let words = words_of(line);
+        let rd = f_render(&words, &mut r, false);
+        let want = f_expand(&format!("ok {want}"));
+        let imp = f_real_expr(&rd);
+        let simp = f_real_stmt(&rd);
+        rep.case("full.directed.expect", Some(&rd.text));
+        if imp != want {
+            viol_once(rep, F_POSTFIX_CLASS, &format!("`{}` parses as {imp}, the documented postfix / bound rules give {want}", rd.text), json!({"text": rd.text}));
+        }
+        if simp != want {
+            viol_once(rep, F_POSTFIX_CLASS_STMT, &format!("statement parser: `{}` parses as {simp}, the documented postfix / bound rules give {want}", rd.text), json!({"text": rd.text}));
+        }
+    }
+}
+
+/// openers of one more live frame over the whole alphabet, with the tokens that close them
+const F_OPENERS: &[(&str, &str)] = &[
+    ("sub", ""),
+    ("not", ""),
+    ("bang", ""),
+    ("tilde", ""),
+    ("(", ")"),
+    ("[", "]"),
+    ("[ l1 ,", "]"),
+    ("i1 (", ")"),
+    ("g0 ( distinct", ")"),
+    ("( l1 ,", ")"),
+    ("i1 in (", ")"),
+    ("i1 not in ( l2 ,", ")"),
+    ("i1 between", "and l2"),
+    ("i1 between l1 and", ""),
+    ("i1 not like", ""),
+    ("case", "when l1 then l2 end"),
+    ("case when", "then l2 end"),
+    ("case when l1 then", "end"),
+    ("case when l1 then l2 else", "end"),
+    ("l1 add", ""),
+    ("l1 or", ""),
+];
+
+fn f_chains(m: &mut Model, rep: &mut Report, rng: &Rng, thorough: bool) {
+    let mut r = rng.fork("full.chain");
+    // every opener alone, exactly at the limit
+    for (i, (open, close)) in F_OPENERS.iter().enumerate() {
+        for n in [62usize, 63, 64, 65] {
+            let mut words: Vec<String> = Vec::new();
+            for _ in 0..n {
+                words.extend(words_of(open));
+            }
+            words.push("l0".into());
+            for _ in 0..n {
+                words.extend(words_of(close));
+            }
+            let (imp, _) = f_tokens_case(m, rep, &mut r, &words, "full.chain.single", false);
+            rep.hit(&format!("full.chain.single.{:02}.{}", i, if imp.starts_with("ok") { "ok" } else { "err" }));
+        }
+    }
+    // mixtures: the limit split over several kinds of nesting
+    let n = if thorough { 4000 } else { 400 };
+    for _ in 0..n {
+        let total = 58 + r.below(13) as usize;
+        let nk = 2 + r.below(4) as usize;
+        let kinds: Vec<usize> = (0..nk).map(|_| r.below(F_OPENERS.len() as u64) as usize).collect();
+        let mut stack = Vec::new();
+        let mut words: Vec<String> = Vec::new();
+        for _ in 0..total {
+            let k = *r.pick(&kinds);
+            words.extend(words_of(F_OPENERS[k].0));
+            stack.push(k);
+        }
+        words.push("l0".into());
+        let closed = !r.chance(1, 6);
+        if closed {
+            while let Some(k) = stack.pop() {
+                words.extend(words_of(F_OPENERS[k].1));
+            }
+        }
+        let (imp, _) = f_tokens_case(m, rep, &mut r, &words, "full.chain.mixed", false);
+        rep.hit(&format!("full.chain.mixed.{}", f_tag(&imp)));
+    }
+}
+
+const F_SOUP_OPERAND: &[&str] = &["l", "l", "l", "i", "i", "k", "null", "mul", "( )", "[ ]", "i ( )", "g ( mul )"];
+const F_SOUP_PREFIX: &[&str] = &["sub", "not", "bang", "tilde", "(", "[", "case", "case when", "i (", "g (", "i ( distinct"];
+const F_SOUP_AFTER: &[&str] = &[
+    "is null", "is not null", "in (", "not in (", "between", "not between", "like", "not like", ". i", ". mul", ")", "]", ",",
+    "and", "when", "then", "else", "end",
+];
+const F_SOUP_NOISE: &[&str] = &[
+    "other", "not", "is", "in", "between", "like", ".", ",", "(", ")", "[", "]", "case", "when", "then", "else", "end",
+    "distinct", "exists", "select", "cast", "null", "g", "k", "bang",
+];
+
+fn f_soup_words(r: &mut Rng, na: &mut usize) -> Vec<String> {
+    let len = r.below(14) as usize;
+    let mut words: Vec<String> = Vec::new();
+    let mut want_operand = true;
+    let push = |words: &mut Vec<String>, pat: &str, na: &mut usize| {
+        for w in pat.split(' ') {
+            match w {
+                "l" | "i" | "k" | "g" => {
+                    *na += 1;
+                    words.push(format!("{w}{}", *na - 1));
+                }
+                _ => words.push(w.to_string()),
+            }
+        }
+    };
+    for _ in 0..len {
+        if !r.chance(5, 6) {
+            push(&mut words, *r.pick(F_SOUP_NOISE), na);
+            continue;
+        }
+        if want_operand {
+            if r.chance(1, 4) {
+                push(&mut words, *r.pick(F_SOUP_PREFIX), na);
+            } else {
+                push(&mut words, *r.pick(F_SOUP_OPERAND), na);
+                want_operand = false;
+            }
+        } else if r.chance(1, 2) {
+            let a = *r.pick(F_SOUP_AFTER);
+            push(&mut words, a, na);
+            want_operand = !matches!(a, "is null" | "is not null" | ". i" | ". mul" | ")" | "]" | "end");
+        } else {
+            words.push(BIN[r.below(19) as usize].0.into());
+            want_operand = true;
+        }
+    }
+    words
+}
+
+/// one random edit of a token list
+fn f_mutate(r: &mut Rng, words: &mut Vec<String>, na: &mut usize) {
+    if words.is_empty() {
+        return;
+    }
+    let i = r.below(words.len() as u64) as usize;
+    match r.below(6) {
+        0 => {
+            words.remove(i);
+        }
+        1 => {
+            let w = (*r.pick(F_SOUP_NOISE)).to_string();
+            let w = if matches!(w.as_str(), "g" | "k") {
+                *na += 1;
+                format!("{w}{}", *na - 1)
+            } else {
+                w
+            };
+            words.insert(i, w);
+        }
+        2 => {
+            let j = r.below(words.len() as u64) as usize;
+            words.swap(i, j);
+        }
+        3 => words.truncate(i),
+        4 => words[i] = BIN[r.below(19) as usize].0.into(),
+        _ => {
+            let w = words[i].clone();
+            words.insert(i, w);
+        }
+    }
+}
+
+fn stream_full(m: &mut Model, rep: &mut Report, rng: &Rng, thorough: bool) {
+    // generated trees: every "X directly under Y" pair
+    let mut r = rng.fork("full.trees");
+    let n = if thorough { 25000 } else { 1800 };
+    let maxd = if thorough { 7 } else { 5 };
+    for _ in 0..n {
+        let mut na = 0;
+        let depth = 2 + r.below(maxd as u64 - 1) as usize;
+        let t = f_gen(&mut r, depth, &mut na);
+        f_tree_case(m, rep, &mut r, &t, "full.trees");
+    }
+    // prints with one to three random edits: almost well-formed input, every error arm
+    let mut r = rng.fork("full.mutant");
+    let n = if thorough { 40000 } else { 3500 };
+    for _ in 0..n {
+        let mut na = 0;
+        let depth = 2 + r.below(3) as usize;
+        let t = f_gen(&mut r, depth, &mut na);
+        let mut pol = Vec::new();
+        t.polish(&mut pol);
+        let mode = *r.pick(&["min", "min", "full", "all"]);
+        let mut words = words_of(&m.ask(&format!("fprint {mode} {}", pol.join(" "))));
+        for _ in 0..1 + r.below(3) {
+            f_mutate(&mut r, &mut words, &mut na);
+        }
+        f_tokens_case(m, rep, &mut r, &words, "full.mutant", true);
+    }
+    let mut r = rng.fork("full.soup");
+    let n = if thorough { 40000 } else { 3500 };
+    for _ in 0..n {
+        let mut na = 0;
+        let words = f_soup_words(&mut r, &mut na);
+        f_tokens_case(m, rep, &mut r, &words, "full.soup", true);
+    }
+}
+
 // ------------------------------------------------------------------ main
 
 fn main() {
@@ -3183,17 +4034,39 @@ fn main() {
     for k in ["probe.below_limit", "probe.distinguishes_prefix_code", "probe.real.err_too_deep", "stmt.soup.too_deep", "known.negative_number.reproduced"] {
         rep.expected_branches.push(k.to_string());
     }
+    for k in [
+        "full.tree.lit", "full.tree.null", "full.tree.ident", "full.tree.kw", "full.tree.wildcard", "full.tree.unit",
+        "full.tree.tuple", "full.tree.un", "full.tree.bin", "full.tree.isnull", "full.tree.in", "full.tree.between",
+        "full.tree.like", "full.tree.qual", "full.tree.qualwild", "full.tree.call", "full.tree.array", "full.tree.case",
+        "full.under.isnull.un", "full.under.isnull.bin", "full.under.isnull.between", "full.under.isnull.like",
+        "full.under.un.isnull", "full.under.un.between", "full.under.between.bin", "full.under.between.between",
+        "full.under.like.un", "full.under.qual.call", "full.under.in.bin",
+        "full.result.ok", "full.result.err_too_deep", "full.result.err_eof_expression", "full.result.err_eof_rparen",
+        "full.result.err_eof_rbracket", "full.result.err_eof_lparen", "full.result.err_eof_NULL", "full.result.err_eof_identifier",
+        "full.result.err_eof_AND", "full.result.err_eof_THEN", "full.result.err_eof_END",
+        "full.result.err_unexpected_expression", "full.result.err_unexpected_rparen", "full.result.err_unexpected_rbracket",
+        "full.result.err_unexpected_lparen", "full.result.err_unexpected_NULL", "full.result.err_unexpected_identifier",
+        "full.result.err_unexpected_AND", "full.result.err_unexpected_THEN", "full.result.err_unexpected_END",
+        "full.result.err_unexpected_end_of_expression", "full.result.err_invalid_qualwild",
+        "full.result.err_invalid_case_no_when", "full.result.err_invalid_exists", "full.stmt.outside",
+        "full.stmt.result.ok", "full.stmt.result.err_too_deep",
+    ] {
+        rep.expected_branches.push(k.to_string());
+    }
     directed_known(&mut rep);
     probe_stmt_depth_limit(&mut m, &mut rep, &rng);
     nest_directed(&mut m, &mut rep, &rng);
+    f_directed(&mut m, &mut rep, &rng);
     stream_trees(&mut m, &mut rep, &rng, args.thorough);
     stream_soup(&mut m, &mut rep, &rng, args.thorough);
     stream_boundary(&mut m, &mut rep, &rng);
     stream_select(&mut m, &mut rep, &rng, args.thorough);
     stream_nest(&mut m, &mut rep, &rng, args.thorough);
+    f_chains(&mut m, &mut rep, &rng, args.thorough);
+    stream_full(&mut m, &mut rep, &rng, args.thorough);
     stream_adversarial(&mut rep, &rng, args.thorough);
     stream_exec(&mut rep, &rng, args.thorough);
-    rep.note("postfix/special forms (IS NULL, IN, BETWEEN, LIKE, calls, CASE, arrays, tuples, qualified names) are opaque atoms of the model; their inner structure is compared only through the real parser's own AST of the atom text");
+    rep.note("expr.* / stmt.* / soup: postfix/special forms (IS NULL, IN, BETWEEN, LIKE, calls, CASE, arrays, tuples, qualified names) are opaque atoms of the Pratt model `parse`; full.*: the same forms are tokens and trees of the complete expression grammar model (Full.lean, ops `full expr|stmt`, `fprint`, `fframes`), compared with the real ExprParser and with the WHERE clause of the real statement parser; stmt-mode inputs the model answers `outside` (EXISTS, CAST, IN ( SELECT) are counted under full.stmt.outside and not compared");
     rep.note("statement-parser error behaviour (trailing tokens are not rejected by parse()) is outside the expression-core model; stmt.* streams compare accepted expressions and TooDeep answers only");
     rep.write(&args.out);
 }
